@@ -29,17 +29,15 @@ def log_pdf_to_affiliation(
 
     # The value of affiliation max may exceed float64 range.
     # Scaling (add in log domain) does not change the final affiliation.
-    if source_activity_mask is None:
-        affiliation = log_pdf - np.amax(log_pdf, axis=-2, keepdims=True)
-    else:
-        # Inactive sources must not determine the scaling. Otherwise, an
-        # inactive source with a much higher likelihood lets all active
-        # sources underflow to zero.
-        affiliation = np.where(source_activity_mask, log_pdf, -np.inf)
-        maximum = np.amax(affiliation, axis=-2, keepdims=True)
-        affiliation = affiliation - np.where(
-            np.isfinite(maximum), maximum, 0
-        )
+    # Sources that are inactive or have a weight of zero must not determine
+    # the scaling. Otherwise, such a source with a much higher likelihood
+    # lets all remaining sources underflow to zero.
+    contributes = np.asarray(weight) > 0
+    if source_activity_mask is not None:
+        contributes = contributes & source_activity_mask
+    affiliation = np.where(contributes, log_pdf, -np.inf)
+    maximum = np.amax(affiliation, axis=-2, keepdims=True)
+    affiliation = affiliation - np.where(np.isfinite(maximum), maximum, 0)
 
     np.exp(affiliation, out=affiliation)
 
